@@ -195,7 +195,7 @@ func errorMessage(fr *frame, e iface) string {
 	}
 	f := engineMethod(fr.i, e.t, "Error")
 	if f == nil {
-		f = fr.i.prog.LookupMethod(e.t, nil, "Error")
+		f = findMethod(fr.i, e.t, "Error")
 	}
 	if f == nil {
 		return fmt.Sprintf("<%s>", e.t)
@@ -224,7 +224,7 @@ func goArg(fr *frame, v value) interface{} {
 		if implementsError(fr.i, x.t) {
 			return fmt.Errorf("%s", errorMessage(fr, x))
 		}
-		if f := fr.i.prog.LookupMethod(x.t, nil, "String"); f != nil && f.Signature.Params().Len() == 0 && f.Blocks != nil {
+		if f := findMethod(fr.i, x.t, "String"); f != nil && f.Signature.Params().Len() == 0 && f.Blocks != nil {
 			if r, ok := call(fr.i, fr, token.NoPos, f, []value{x.v}).(string); ok {
 				return r
 			}
@@ -304,7 +304,7 @@ func extErrorsIs(fr *frame, err, target iface) bool {
 		if comparable && sameType(e.t, target.t) && equals(e.t, e.v, target.v) {
 			return true
 		}
-		if f := fr.i.prog.LookupMethod(e.t, nil, "Is"); f != nil && f.Blocks != nil && f.Signature.Params().Len() == 1 {
+		if f := findMethod(fr.i, e.t, "Is"); f != nil && f.Blocks != nil && f.Signature.Params().Len() == 1 {
 			if truth(call(fr.i, fr, token.NoPos, f, []value{e.v, target})) {
 				return true
 			}
@@ -322,7 +322,7 @@ func extErrorsIs(fr *frame, err, target iface) bool {
 func unwrapAll(fr *frame, e iface) []iface {
 	f := engineMethod(fr.i, e.t, "Unwrap")
 	if f == nil {
-		f = fr.i.prog.LookupMethod(e.t, nil, "Unwrap")
+		f = findMethod(fr.i, e.t, "Unwrap")
 	}
 	if f == nil || f.Signature.Params().Len() != 0 || f.Signature.Results().Len() != 1 {
 		return nil
@@ -408,7 +408,7 @@ func init() {
 			}
 			f := engineMethod(fr.i, e.t, "Unwrap")
 			if f == nil {
-				f = fr.i.prog.LookupMethod(e.t, nil, "Unwrap")
+				f = findMethod(fr.i, e.t, "Unwrap")
 			}
 			if f == nil || f.Signature.Results().Len() != 1 || !types.Identical(f.Signature.Results().At(0).Type(), errorIfaceT) {
 				return iface{}
@@ -797,4 +797,19 @@ func initVerifIntrinsics() {
 		}
 		return n
 	}
+}
+
+// findMethod returns the method named name (exported) of dynamic type t, or nil.
+func findMethod(i *interpreter, t types.Type, name string) *ssa.Function {
+	if t == nil {
+		return nil
+	}
+	if f := engineMethod(i, t, name); f != nil {
+		return f
+	}
+	sel := i.prog.MethodSets.MethodSet(t).Lookup(nil, name)
+	if sel == nil {
+		return nil
+	}
+	return i.prog.MethodValue(sel)
 }
